@@ -63,6 +63,7 @@ class SeamState:
         self.out = []
         self.tc_observer = None
         self.enabled = True
+        self.reentry = {}  # (site, k) -> callable: user code that calls back into jaxtyping from inside a call-out
 
 
 def install(state):
@@ -86,6 +87,10 @@ def hit(site):
     st.counts[site] = n
     if st.yield_on_seams and st.sched is not None:
         st.sched.yield_point(("seam", site, n))
+    if st.reentry:
+        cb = st.reentry.pop((site, n), None)
+        if cb is not None:
+            cb()  # re-entrant use of jaxtyping from user code (a shape property, a flatten function) during a check
     exc = st.plan.get((site, n))
     if exc is not None:
         st.fired.append((site, n, exc))
